@@ -17,6 +17,11 @@ CHECKS = {
    text="Theorems in coq/props/C19.v (closed under the global context): for every shot whose values are bits, to_register_bits returns, for every register, exactly the pointwise reading of the entry history (latest indexed write to position j after the last whole-register write, else that write's bit j, else 0; length = max(whole length, 1 + highest later index)); it raises ValueError iff some entry carries a non-bit; collate_tags gives per tag all values in entry order. Multi-shot register_bitstrings/register_counts (strict_names, strict_lengths) and collated_counts are modelled and evaluated in Coq against a separately written specification (per-shot strings in shot order; reject iff register sets / lengths differ; flatten+concatenate) on every generated case: monitored, not yet theorems. Three genuine defects were repaired in /repo (fix: commits, known_findings.txt).",
    note="Trusted: Coq kernel/vm_compute; sampling correspondence; tag alphabet = printable ASCII (Unicode \\w/\\d and '$'-before-newline are outside the model); the regex is re-implemented by hand (parse_tag) and compared with re.match on generated tags.",
    ref="4/C19"),
+ "C09": dict(
+   technique="Coq proof (header decoder characterised for all byte strings + in-Coq sweep of all 2^16 format/flag pairs; envelope round trip modulo zstd/JSON oracle hypotheses) tied by behavioural correspondence incl. an exhaustive run of the real header decoder",
+   text="Theorems in coq/props/C09.v (closed under the global context; zstd and the JSON text codec appear only as Section hypotheses visible in the statements): header_to_bytes lays out magic, format byte and flags with bit 0 = compressed, bits 7,6 = 0,1; header_from_bytes accepts a byte string iff it is MAGIC ++ [known format; flags] ++ rest and then decodes format and flags&1, for ALL byte strings, and returns ValueError otherwise (short, other magic, unknown format); all 2^16 pairs swept inside Coq; read_envelope(make_envelope p c) = p for every JSON configuration (any level or none) given decompress.compress = id and parse.dump = id; to_str only for ASCII-printable formats. Each run executes the real EnvelopeHeader.from_bytes on all 65536 pairs and all truncations and compares accepted set and decoded fields with the model in Coq, and runs to_bytes/to_str/from_bytes/from_str on generated packages and mutated envelopes.",
+   note="Trusted: Coq kernel/vm_compute; pyzstd and pydantic as oracles (their per-case answers are observed and fed to the model); MODULE formats are not encodable offline (native module absent) and are only modelled on the decode side; document-level round trip of modules/extensions themselves is C02/C10.",
+   ref="4/C09"),
 }
 NA = []
 def main():
